@@ -142,10 +142,11 @@ pub fn set_rlimit_as(bytes: u64) {
 }
 
 /// Worker loop: regenerates the case list, runs `idx % nshards == shard && idx >= start`.
-pub fn worker_main(prop: &dyn Prop, tier: Tier, seed: u64, shard: usize, nshards: usize, start: usize, out_path: &str, flavour: &str, asan: bool) {
+pub fn worker_main(prop: &dyn Prop, tier: Tier, seed: u64, shard: usize, nshards: usize, start: usize, out_path: &str, flavour: &str, asan: bool, only_cell: Option<&str>) {
   if !asan { set_rlimit_as(8 << 30); }
   install_quiet_panic_hook();
-  let cases = prop.gen(tier, seed);
+  let mut cases = prop.gen(tier, seed);
+  if let Some(f) = only_cell { cases.retain(|c| glob(f, &c.cell)); }
   let f = std::fs::OpenOptions::new().create(true).append(true).open(out_path).expect("open worker log");
   let mut w = std::io::BufWriter::new(f);
   for (idx, case) in cases.iter().enumerate() {
@@ -186,15 +187,19 @@ pub struct KnownFinding {
   pub commit: Option<String>,
 }
 
+/// cell pattern: alternatives separated by " | "; within an alternative '*' matches any run of characters except ';'
 pub fn glob(pat: &str, s: &str) -> bool {
-  // '*' matches any run of characters
+  if pat.contains(" | ") { return pat.split(" | ").any(|p| glob1(p.trim(), s)); }
+  glob1(pat, s)
+}
+fn glob1(pat: &str, s: &str) -> bool {
   let p: Vec<char> = pat.chars().collect();
   let t: Vec<char> = s.chars().collect();
   let (mut pi, mut ti, mut star, mut mark) = (0usize, 0usize, None::<usize>, 0usize);
   while ti < t.len() {
     if pi < p.len() && (p[pi] == t[ti]) && p[pi] != '*' { pi += 1; ti += 1; }
     else if pi < p.len() && p[pi] == '*' { star = Some(pi); mark = ti; pi += 1; }
-    else if let Some(sp) = star { pi = sp + 1; mark += 1; ti = mark; }
+    else if let Some(sp) = star { if t[mark] == ';' { return false; } pi = sp + 1; mark += 1; ti = mark; }
     else { return false; }
   }
   while pi < p.len() && p[pi] == '*' { pi += 1; }
@@ -256,6 +261,7 @@ fn run_flavour(prop: &dyn Prop, cfg: &DriverCfg, cases: &[Case], flavour: &str, 
   let spawn = |shard: usize, start: usize, log: &str| -> std::process::Child {
     let mut c = std::process::Command::new(&bin);
     c.args(["worker", prop.id(), "--tier", cfg.tier.name(), "--seed", &cfg.seed.to_string(), "--shard", &shard.to_string(), "--nshards", &n.to_string(), "--start", &start.to_string(), "--out", log, "--flavour", flavour]);
+    if let Some(f) = &cfg.only_cell { c.args(["--cell", f]); }
     c.stdout(std::process::Stdio::null()).stderr(std::process::Stdio::piped()).stdin(std::process::Stdio::null());
     if flavour == "asan" { c.env("ASAN_OPTIONS", format!("detect_leaks=0:abort_on_error=1:halt_on_error=1:log_path={}/asan.{}", work, shard)); }
     c.spawn().expect("spawn worker")
@@ -350,7 +356,6 @@ pub fn drive(prop: &dyn Prop, cfg: &DriverCfg) -> Report {
   std::fs::create_dir_all(&replay_dir).unwrap();
 
   // pinned reproducers of open known findings
-  install_quiet_panic_hook();
   let mut kf_lines: Vec<String> = Vec::new();
   let mut kf_matched: BTreeMap<String, usize> = BTreeMap::new();
 
